@@ -151,20 +151,23 @@ def run(ctx: core.Ctx):
     for _ in range(1500 if ctx.quick else 12000):
         fam = rng.choice([["c1", "c2"], ["up", "dn", "cv", "ss"], ["tri", "tri"], keys])
         n = rng.randint(3, 6)
-        file_cases.append({"acts": [{"t": rng.choice(fam), "d": from_number(rng.choice(degs))} for _ in range(n)],
-                           "aggr": rng.choice(AGGRS), "type": rng.choice(["Automatic", "TakagiSugeno", "Tsukamoto"]), "cls": rng.choice(["WeightedAverage", "WeightedSum"])})
-    p = ctx.work / "weighted.json"
-    p.write_text(json.dumps(file_cases))
-    gf = ctx.tlc("MC_Weighted", write_cfg("File_Weighted", head.format(ml=0, ff="TRUE", e="TRUE") + "".join(f"INVARIANT {i}\n" for i in INVS) + "INVARIANT EmitInv\nCHECK_DEADLOCK FALSE\n"),
-                 workers=1, env={"VERIF_CASES": str(p)}, timeout=3000)
-    ctx.expect_holds(gf, "MC_Weighted[file]")
-    for i, c in enumerate(gf.emitted):
+        ag = rng.choice(AGGRS)
+        dd = degs if ag in ("Maximum", "BoundedSum", "DrasticSum", "NilpotentMaximum", "UnboundedSum", "none") else [F(0), F(1, 2), F(1)]
+        file_cases.append({"acts": [{"t": rng.choice(fam), "d": from_number(rng.choice(dd))} for _ in range(n)],
+                           "aggr": ag, "type": rng.choice(["Automatic", "TakagiSugeno", "Tsukamoto"]), "cls": rng.choice(["WeightedAverage", "WeightedSum"])})
+    gfs = ctx.tlc_cases("MC_Weighted", write_cfg("File_Weighted", head.format(ml=0, ff="TRUE", e="TRUE") + "".join(f"INVARIANT {i}\n" for i in INVS) + "INVARIANT EmitInv\nCHECK_DEADLOCK FALSE\n"),
+                        file_cases, label="weighted", workers=1, timeout=3000)
+    file_emitted = []
+    for gf in gfs:
+        ctx.expect_holds(gf, "MC_Weighted[file]")
+        file_emitted += gf.emitted
+    for i, c in enumerate(file_emitted):
         check_case(ctx, fl, T, c, "seeded")
         ctx.case(("f", i), nontrivial=not c["raises"])
-    ctx.traces += len(gf.emitted)
+    ctx.traces += len(file_emitted)
     # batches: cases with the same terms / settings stacked along the batch axis must give the per-case results
     groups = {}
-    for c in list(g.emitted) + list(gf.emitted):
+    for c in list(g.emitted) + file_emitted:
         if not c["raises"] and c["v"][0] < 3 and c["acts"]:
             groups.setdefault((tuple(a["t"] for a in c["acts"]), c["aggr"], c["type"], c["cls"]), []).append(c)
     nb = 0
